@@ -82,6 +82,8 @@ fn run_real_client(rep: &mut Report, seed: u64, rng: &mut StdRng) {
     let burst = [1usize, 2, 5][rng.gen_range(0..3)];
     let refresh_ms = [0i64, 10, 100][rng.gen_range(0..3)];
     let ncalls = rng.gen_range(5..40usize);
+    let idle_periods = if rng.gen_bool(0.5) { rng.gen_range(3..25usize) } else { 0 };
+    if idle_periods > 0 { rep.count("rpc_cases_flooding_after_an_idle_period"); }
     let probe = Arc::new(Probe { hold_yields: rng.gen_range(0..30), ..Default::default() });
     let rt = tokio::runtime::Builder::new_current_thread().build().unwrap();
     let msg: validator::Signed<validator::ConsensusMsg> = rng.gen();
@@ -107,6 +109,14 @@ fn run_real_client(rep: &mut Report, seed: u64, rng: &mut StdRng) {
                 let _ = verif::run_rpc_client(ctx, b, Some(client), None).await;
                 Ok(())
             });
+            // optionally stay idle for several refresh periods first: every server stream gets primed and the bucket refills,
+            // and only then the flood starts (permits of streams that wait for the peer must stay reserved)
+            for _ in 0..idle_periods {
+                for _ in 0..50 {
+                    tokio::task::yield_now().await;
+                }
+                clock.advance(time::Duration::milliseconds(refresh_ms.max(1)));
+            }
             // fire every call at once, never waiting
             let mut hs = vec![];
             for _ in 0..ncalls {
@@ -154,6 +164,8 @@ fn run_raw_client(rep: &mut Report, seed: u64, rng: &mut StdRng) {
     let (a, mut b, _st) = duplex(seed, Script::default(), Script::default(), Tamper::None, false);
     let p2 = probe.clone();
     let rounds = rng.gen_range(3..15usize);
+    let idle_periods = if rng.gen_bool(0.5) { rng.gen_range(3..25usize) } else { 0 };
+    if idle_periods > 0 { rep.count("rpc_cases_flooding_after_an_idle_period"); }
     rt.block_on(async {
         let clock = ctx::ManualClock::new();
         let root = ctx::test_root(&clock);
@@ -190,6 +202,12 @@ fn run_raw_client(rep: &mut Report, seed: u64, rng: &mut StdRng) {
                 f.extend(&req);
                 f
             };
+            for _ in 0..idle_periods {
+                for _ in 0..50 {
+                    tokio::task::yield_now().await;
+                }
+                clock.advance(time::Duration::milliseconds(refresh_ms));
+            }
             for _ in 0..rounds {
                 for id in 0u16..4 {
                     let open = id; // OPEN | ACCEPT | id
